@@ -75,4 +75,14 @@ def check(prop, tier, seed):
     run.assumptions += ["replies are attributed to requests by opaque (binary) or by position (text) by the harness's strict decoder",
                         "a binary request with an unknown opcode may be answered by closing the connection"]
     run.log("validated %d requests in %d pipelines, %d mismatch lines" % (len(events), len(pipes), nm))
+    # reply discipline while connections interleave WITHOUT the locking wrapper: the two-client programs around
+    # one key, every interleaving at handler-call granularity (gate scheduler); the executions need not be
+    # linearizable then, but every command must still get its one reply (OrcaLin's NoReply / Stuck)
+    import lin
+    progs = [p for p in lin.programs("quick", seed) if len(p["clients"]) == 2][:(160 if quick else 1200)]
+    for i, p in enumerate(progs):
+        p["id"] = i
+    outs = lin.explore(run, progs, "none", 0, 40 if quick else 400, "unlocked")
+    execs = lin.validate(run, outs, "C08", "unlocked interleavings")
+    run.extra["unlocked_interleavings"] = len(execs)
     return run.finish(exhaustive=False, rule="random pipelines of 1-4 requests (every kind, failing ones included) written back to back; every request's reply units must equal Replies!Emit for the outcome inferred from them")
